@@ -121,6 +121,11 @@ func runC19(p *eng.Prog, r *eng.Report, tier string) {
 	c.r.Floor("C19.20", "character-data assertions in the payload decoders", nEC, 1)
 	nAM := attrMarshalersByValue(c, "C19.19", c19Pkgs)
 	c.r.Floor("C19.19", "attribute fields with their own marshaler", nAM, 3)
+	nDur := decodedDurationsBounded(c, "C19.30", inC19)
+	c.r.Floor("C19.30", "durations computed from decoded integers", nDur, 1)
+	c20SortsCopies(c, "C19.29")
+	nEA := emptyAddressAttrAgreement(c, "C19.28", func(f *eng.Fn) bool { return inC19(f) || strings.HasPrefix(f.Short, "stanza.") })
+	c.r.Note("C19.28: %d address attributes with a strict decoder examined", nEA)
 	nFI := formattedIntsKeepTheirRange(c, "C19.27", inC19)
 	c.r.Floor("C19.27", "integers formatted in the payload packages", nFI, 5)
 	nLD := lossyDecodeStores(c, "C19.26", inC19)
